@@ -15,6 +15,7 @@ Model: Acme.Core.BusLoad (over ℚ; IEEE rounding is trusted, see DESIGN §4).
 import Acme.Core.BusLoad
 import Acme.Spec.BusLoad
 import Acme.Proofs.BusLoad
+import Acme.Proofs.SitesConsts
 
 namespace Acme.Props.C17
 open Acme.BusLoad
@@ -65,6 +66,14 @@ theorem C17_mono_cycle (baud : Int) (hb : 0 < baud) (pre post : List Msg) (m : M
     (d : Int) (hd : 0 < d) (hm : MsgOK m) (hc0 : 0 < c') (hc : c' ≤ cycleOf m d) :
     loadOf baud (pre ++ m :: post) d ≤ loadOf baud (pre ++ { m with cycle := c' } :: post) d :=
   Acme.BusLoad.mono_cycle baud hb pre post m c' d hd hm hc0 hc
+
+/-- Tie B: the numeric constants in the current source (regenerated on every run) are the
+    ones of the model. -/
+theorem C17_consts :
+    Acme.Gen.maxSize = Acme.Arith.maxSize ∧ Acme.Gen.headerBits = Acme.BusLoad.headerBits ∧
+    Acme.Gen.trailerBits = Acme.BusLoad.trailerBits ∧
+    Acme.Gen.headerStuffingBits = Acme.BusLoad.headerStuffingBits :=
+  Acme.Sites.consts_expected
 
 /-! Non-vacuity -/
 example : MsgOK ⟨1, 8, 100⟩ := by decide
